@@ -527,6 +527,7 @@ def async_twin(ctx, rng, fresh_zone, q, dgrams, stream, mode, sync_outcome, case
 
     z2 = fresh_zone()
     opened = []
+    waits = []  # (operation, timeout handed to the backend): a number of seconds from now, never more than the lifetime given
 
     class ASock:
         def __init__(self, kind):
@@ -541,17 +542,21 @@ def async_twin(ctx, rng, fresh_zone, q, dgrams, stream, mode, sync_outcome, case
             return False
 
         async def sendto(self, what, destination, timeout):
+            waits.append(("sendto", timeout))
             return len(what)
 
         async def sendall(self, what, timeout):
+            waits.append(("sendall", timeout))
             return None
 
         async def recvfrom(self, size, timeout):
+            waits.append(("recvfrom", timeout))
             if not self.q:
                 raise dns.exception.Timeout
             return self.q.pop(0), ("192.0.2.1", 53)
 
         async def recv(self, size, timeout):
+            waits.append(("recv", timeout))
             if self.type == socket.SOCK_DGRAM:
                 if not self.q:
                     raise dns.exception.Timeout
@@ -591,6 +596,10 @@ def async_twin(ctx, rng, fresh_zone, q, dgrams, stream, mode, sync_outcome, case
     finally:
         loop.close()
     ctx.count("mon.via_socket_loop_async")
+    late = [(op, t) for op, t in waits if t is not None and not (0 <= t <= 30.5)]
+    if late:
+        ctx.violation(f"async-transfer-hands-the-backend-a-wait-beyond-its-lifetime:{late[0][0]}", f"lifetime=30, timeout=5: {late[0][0]}(..., timeout={late[0][1]!r})", case)
+        return
     outcome = (type(err).__name__ if err else "ok", zone_fp(z2)[0], len(opened))
     if outcome != sync_outcome:
         what = "verdict" if outcome[0] != sync_outcome[0] else "zone" if outcome[1] != sync_outcome[1] else "sockets-opened"
